@@ -24,6 +24,9 @@ RULE = (
     "= chain where the child overrides or adds >=1 property or keyword and >=1 value is accepted and "
     ">=1 rejected by the child; distinct = canon(case)"
 )
+RULE += (
+    ' Children may list a plain Python mix-in before or after the model parent.'
+)
 ASSUMPTIONS = [
     "reconfiguration of the child is reassignment-style only; mutating a container inherited by reference in place is not claimed by the statement",
     "effective JSON names of the merged properties are unique (ambiguous declarations are not generated)",
@@ -50,6 +53,11 @@ def cases(draw):
         everything.update(R.index(copy.deepcopy(node)))
         if chain:
             node["base"] = {"ref": chain[-1]["id"]}
+            # class Child(Mixin, Parent) / (Parent, Mixin): a plain Python mix-in next to the model parent
+            mix = draw(st.sampled_from([None, None, "first", "last"]))
+            node.pop("mixin", None)
+            if mix:
+                node["mixin"] = mix
             # keep effective JSON names unique across the merged class
             _, _, merged = R.flat_class(chain[-1], R.index(chain))
             taken = {eff(p): p["name"] for p in merged}
